@@ -169,3 +169,33 @@ func VerifC31Antisymmetric() {
 	}
 	verifObserve("swaps", o)
 }
+
+// VerifC31SwapSurvives: a non-primary tunnel that proves alive (inbound traffic) while marked for deletion, and is
+// then swapped in as primary where the decision says so, is not dropped at its next quiet check: it is probed first.
+func VerifC31SwapSurvives() {
+	myAddr := netip.AddrFrom4([4]byte{10, 0, 0, verifU8("my_low")})
+	peerAddr := netip.AddrFrom4([4]byte{10, 0, 0, verifU8("peer_low")})
+	verifAssume(myAddr != peerAddr)
+	far := time.Unix(0, c30Epoch*3)
+	w := c30Build(myAddr, peerAddr, far)
+	cm, h := w.cm, w.h
+	p := &HostInfo{localIndexId: 8, remoteIndexId: 80, vpnAddrs: []netip.Addr{peerAddr}, ConnectionState: &ConnectionState{peerCert: h.ConnectionState.peerCert, myCert: h.ConnectionState.myCert}}
+	cm.hostMap.unlockedAddHostInfo(p, &Interface{}) // p is primary, h is the other tunnel of a simultaneous handshake
+	h.pendingDeletion.Store(verifBool("was_pending"))
+	h.in.Store(true) // the peer sends on h before the deletion re-check
+	h.out.Store(verifBool("out1"))
+	now := c30Time("now")
+	dec, _, _ := cm.makeTrafficDecision(7, now)
+	verifAssert(dec == swapPrimary || dec == migrateRelays, "a live non-primary tunnel is swapped in or has its relays migrated")
+	if dec == swapPrimary {
+		cm.hostMap.MakePrimary(h)
+	}
+	// next interval: we sent, the peer stayed quiet
+	h.out.Store(true)
+	dec2, _, _ := cm.makeTrafficDecision(7, now.Add(time.Second))
+	verifAssert(dec2 != deleteTunnel && dec2 != closeTunnel, "a tunnel that proved alive is probed before it is dropped")
+	if dec == swapPrimary {
+		verifAssert(dec2 == sendTestPacket, "the swapped-in primary is probed after one quiet interval")
+	}
+	verifObserve("decision", uint64(dec)<<8|uint64(dec2))
+}
